@@ -421,6 +421,64 @@ def loop_lower_hyps(func, use):
         if body_st:
             continue
         out.append(Lin({iv: 1}) - a)
+    # `i = a; while (i < ..) { ..; i++; }`: the same for a while loop whose index has one
+    # dominating initialisation outside the loop and only grows inside it
+    for lp in func.walk():
+        if lp["k"] != "while" or lp.get("c") is None:
+            continue
+        if not any(x["id"] == use["id"] for x in walk(lp["body"] or {})) and \
+                not any(x["id"] == use["id"] for x in walk(lp["c"] or {})):
+            continue
+        for iv in {r["name"] for r in refs(lp["c"]) if r.get("cat") in ("local", "param")}:
+            st = [n for n, lv, op, rhs in stores(lp["body"]) if lv["k"] == "ref" and lv["name"] == iv]
+            if not st or any(n["op"] not in ("post++", "pre++", "+=") for n in st):
+                continue
+            outside = [(n, rhs) for n, lv, op, rhs in stores(func.body)
+                       if lv["k"] in ("ref", "var") and lv.get("name") == iv and
+                       not any(x["id"] == n["id"] for x in walk(lp))]
+            if len(outside) != 1 or outside[0][1] is None or func.cfg.pos(outside[0][0]) is None or \
+                    not func.cfg.dominates(outside[0][0], lp["c"]):
+                continue
+            a = linearize(outside[0][1])
+            if a is None:
+                continue
+            names = {r["name"] for r in refs(outside[0][1])}
+            if [n for n, lv, op, rhs in stores(func.body) if lv["k"] == "ref" and lv["name"] in names]:
+                continue
+            out.append(Lin({iv: 1}) - a)
+    return out
+
+
+def caller_region_hyps(prog, func):
+    """For a static helper with a single call site: what a validated ex region in the caller
+    says about the arguments, read for the helper's parameters (0 <= beg <= end <= lbuf_len)."""
+    if not getattr(func, "static", False):
+        return []
+    sites = [(h, c) for h in prog.funcs.values() if h is not func for c in h.calls(func.name)
+             if prog.resolve(h, c["fn"]) is func]
+    if len(sites) != 1:
+        return []
+    h, c = sites[0]
+    ren = {}
+    for q, a in zip(func.params, c["args"]):
+        a = strip_casts(a)
+        if a["k"] == "ref":
+            ren[a["name"]] = q["name"]
+    if any(lv["k"] == "ref" and lv["name"] in ren.values() for n, lv, op, rhs in stores(func.body)):
+        return []          # a parameter is reassigned in the helper
+    out = []
+    for hyp in region_hyps(h, c):
+        o = Lin(k=hyp.k)
+        okh = True
+        for at, v in hyp.c.items():
+            if at in ren:
+                o.c[ren[at]] = o.c.get(ren[at], 0) + v
+            elif at == LEN_ATOM:
+                o.c[at] = o.c.get(at, 0) + v
+            else:
+                okh = False
+        if okh:
+            out.append(o)
     return out
 
 
@@ -600,8 +658,15 @@ def _ret_range(func, call):
     g = prog.resolve(func, fn) if (prog is not None and fn) else None
     if g is None:
         return None
+    def pure_helper(c_):
+        h = prog.resolve(g, c_["fn"]) if c_.get("fn") else None
+        if h is None or h is g or h.file != g.file or len(list(h.walk())) > 80:
+            return None
+        if any(x["k"] in ("while", "for", "do") for x in h.walk()) or list(stores(h.body)):
+            return None
+        return h
     try:
-        summ = call_summary(g, {}, 1, cache_key="range")
+        summ = call_summary(g, {"inline": pure_helper}, 0, cache_key="range")
     except Exception:
         return None
     if not summ:
@@ -678,7 +743,11 @@ def _counter_bound(func, h, body, v):
         if pb is None or pb.id not in body:
             continue
         conds.append(c)
-    for c in conds:
+    def relational(c):
+        c = strip_casts(c)
+        return c["k"] == "bin" and c["op"] in ("<", "<=", ">", ">=") and (
+            key(strip_casts(c["l"])) == v or key(strip_casts(c["r"])) == v)
+    for c in sorted(conds, key=lambda c_: 0 if relational(c_) else 1):
         # evaluated at the top of each pass: the header itself or a block only reached from it
         # through condition blocks
         if any(r_["name"] == v for r_ in refs(c)) and not _impure_cond(c):
